@@ -19,11 +19,12 @@ from zmon import util
 P = inspect.Parameter
 
 
+FLAVOURS = ['plain', 'async', 'gen', 'asyncgen', 'closure']
 DEFAULT_LITERALS = ['None', "'s'", '(3,)', '()', '(1, 2)', '[]', '0', '{}', 'b"x"', '-1.5']
 
 
 def mkfunc(name, posonly=0, req=0, dflt=0, varargs=False, kwonly=(), kwargs=False, self_first=False, vname='args', kname='kw',
-           lits=None, body_locals=False):
+           lits=None, body_locals=False, flavour='plain'):
     """Build a real function from source text.  *req*/*dflt* count the
     positional-or-keyword parameters; *posonly* positional-only ones come
     first (the last *dflt* positional parameters overall carry defaults);
@@ -50,10 +51,22 @@ def mkfunc(name, posonly=0, req=0, dflt=0, varargs=False, kwonly=(), kwargs=Fals
     if kwargs:
         out.append('**' + kname)
     body = '    zlocal = 1\n    zother = [zq for zq in ()]\n    del zother\n' if body_locals else ''
-    src = 'def %s(%s):\n    "doc of %s"\n%s    return None\n' % (name, ', '.join(out), name, body)
+    # flavours of code object: coroutines, generators and asynchronous generators carry further co_flags bits; in a
+    # closure the parameters themselves are cell variables and a free variable of the enclosing function is in scope
+    kw_def = 'async def' if flavour in ('async', 'asyncgen') else 'def'
+    if flavour in ('gen', 'asyncgen'):
+        body += '    yield 1\n'
+    if flavour == 'closure':
+        captured = [n.lstrip('*').split('=')[0] for n in out if n not in ('/', '*')]
+        body += '    zcell = lambda: (zfree, %s)\n' % ''.join(c + ', ' for c in captured)
+    tail = '    return None\n' if flavour not in ('gen', 'asyncgen') else ''
+    src = '%s %s(%s):\n    "doc of %s"\n%s%s' % (kw_def, name, ', '.join(out), name, body, tail)
+    head = src.splitlines()[0] + ('' if flavour == 'plain' else '  # inside a closure' if flavour == 'closure' else '  # ' + flavour)
+    if flavour == 'closure':
+        src = 'def zouter(zfree):\n' + ''.join('    ' + l + '\n' for l in src.splitlines()) + '    return %s\n%s = zouter(7)\n' % (name, name)
     ns = {}
     exec(src, ns)
-    return ns[name], src.splitlines()[0]
+    return ns[name], head
 
 
 def expected_info(sig):
@@ -162,6 +175,10 @@ def run_c18(ctx, rng, job):
               # a real body with local variables (they follow the parameters in co_varnames)
               g = dict(g, body_locals=True)
               ctx.count('grid_points_with_local_variables')
+              # ... and of another kind of code object: coroutine, generator, asynchronous generator, closure
+              fl = FLAVOURS[(idx + job.get('seed', 0) + rng.randrange(len(FLAVOURS))) % len(FLAVOURS)]
+              g['flavour'] = fl
+              ctx.count('grid_points_by_kind_of_function[%s]' % fl)
           # (1) plain function through fromFunction and through an interface class body
           f, head = mkfunc('meth', vname=vname, kname=kname, **g)
           f.tagged = ('tag', idx)
@@ -226,7 +243,8 @@ def run_c18(ctx, rng, job):
           # (2c) a leading parameter that has a default itself (def meth(self=None, ...)), described as a method
           if g['posonly'] == 0 and g['req'] == 0:
               fd, headd = mkfunc('meth', req=0, dflt=g['dflt'] + 1, varargs=g['varargs'], kwonly=g['kwonly'], kwargs=g['kwargs'],
-                                 vname=vname, kname=kname, lits=lits, body_locals=g.get('body_locals', False))
+                                 vname=vname, kname=kname, lits=lits, body_locals=g.get('body_locals', False),
+                                 flavour=g.get('flavour', 'plain'))
               expd = expected_info(drop_first(inspect.signature(fd)))
               check_desc(ctx, attempt(fromMethod, fd), expd, 'fromMethod-defaulted-self', headd)
               check_desc(ctx, attempt(fromFunction, fd, imlevel=1), expd, 'fromFunction-imlevel1-defaulted-self', headd)
